@@ -139,6 +139,158 @@ def check_constants(ctx, out):
     out.samples.append({"constants_reported_by_pint": reported[:3]})
 
 
+# name groups: every entry of a group must be read as the same unit (short, long, plural, alias)
+ATOMS = [
+    ["m", "meter", "metre", "meters"], ["s", "second", "sec", "seconds"], ["g", "gram", "grams"], ["cm", "centimeter", "centimetre"],
+    ["mm", "millimeter"], ["ms", "millisecond"], ["kg", "kilogram"], ["km", "kilometer"], ["K", "kelvin"], ["yr", "julian_year"],
+    ["pc", "parsec"], ["au", "astronomical_unit"], ["erg"], ["G", "gauss"], ["J", "joule"], ["W", "watt"], ["Pa", "pascal"],
+    ["M_sun", "solar_mass", "M_sol"], ["R_sun", "solar_radius"], ["L_sun", "solar_luminosity"], ["M_earth", "earth_mass"],
+    ["c", "speed_of_light"], ["k", "boltzmann_constant"], ["h", "hour"], ["mK", "millikelvin"], ["Gs", "gigasecond"],
+    ["min", "minute"], ["d", "day"], ["a", "year"], ["l", "liter", "L"], ["N", "newton"], ["mN", "millinewton"], ["T", "tesla"],
+    ["vl2"], ["vm4"], ["vt16"],
+]
+
+
+def gen_tree(r, depth):
+    if depth == 0 or r.random() < 0.3:
+        return {"k": "atom", "group": r.randrange(len(ATOMS))}
+    k = r.choice(["mul", "mul", "div", "pow"])
+    if k == "pow":
+        return {"k": "pow", "a": gen_tree(r, depth - 1), "n": r.choice([-3, -2, -1, 2, 3])}
+    return {"k": k, "a": gen_tree(r, depth - 1), "b": gen_tree(r, depth - 1)}
+
+
+def _wordy(ch):
+    return ch.isalnum() or ch == "_"
+
+
+def render(r, t, style):
+    """style 'canon': first name of each group, explicit `*`, `**`, `/`, every compound operand parenthesised.
+    style 'free': a random spelling inside the part of pint's grammar that is unambiguous: any name of the group, `^` or `**`,
+    blanks around operators, `a/b` or `a*b**-1`, reordered factors, and a blank as the product sign between two operands that
+    end / start with a name character (pint gives a blank next to a parenthesis a different meaning)."""
+    k = t["k"]
+    if k == "atom":
+        names = ATOMS[t["group"]]
+        return names[0] if style == "canon" else r.choice(names)
+    if k == "pow":
+        a = render(r, t["a"], style)
+        if t["a"]["k"] != "atom":
+            a = "(" + a + ")"
+        op = "**" if style == "canon" else r.choice(["**", "^", " ** "])
+        return f"{a}{op}{t['n']}"
+    a, b = render(r, t["a"], style), render(r, t["b"], style)
+    if t["a"]["k"] == "div":
+        a = "(" + a + ")"
+    if t["b"]["k"] in ("mul", "div"):
+        b = "(" + b + ")"
+
+    def product(x, y):
+        seps = ["*", " * "]
+        if _wordy(x[-1]) and _wordy(y[0]):
+            seps += [" ", " ", "  "]
+        return x + r.choice(seps) + y
+
+    if k == "mul":
+        if style == "canon":
+            return f"{a}*{b}"
+        if r.random() < 0.3 and t["a"]["k"] != "mul":
+            return product(b, a if t["a"]["k"] == "atom" or a.startswith("(") else "(" + a + ")")
+        return product(a, b)
+    if style != "canon" and r.random() < 0.3:
+        bb = b if t["b"]["k"] == "atom" else "(" + b + ")"  # `x**-2**-1` is right-associative: parenthesise powers too
+        return product(a, bb + "**-1")
+    return f"{a}{'/' if style == 'canon' else r.choice(['/', ' / '])}{b}"
+
+
+def check_spellings(ctx, out):
+    """`osyris.units` returns the same unit for equivalent spellings: every spelling of one expression tree is read as the unit the
+    tree denotes (UExpr.eval of the Lean model over the atoms' units); all spellings are parsed in one process in random order, so
+    a result that depends on what was parsed before shows up as two spellings of one tree disagreeing."""
+    osy = ctx.osyris
+    r = ctx.rng
+    ntree = 120 if ctx.tier == "quick" else 2500
+    # alias groups first, in random order
+    order = [(gi, nm) for gi, names in enumerate(ATOMS) for nm in names]
+    r.shuffle(order)
+    atom_unit = {}
+    for gi, nm in order:
+        out.evaluations += 1
+        try:
+            u = osy.units(nm)
+        except Exception as e:  # noqa: BLE001
+            out.violations.append({"what": f"osyris.units('{nm}') raises {type(e).__name__}", "case": {"name": nm},
+                                   "call_site": "Units.__call__", "input_class": "spelling"})
+            continue
+        atom_unit.setdefault(gi, (nm, u))
+        if u != atom_unit[gi][1]:
+            out.violations.append({"what": f"osyris.units('{nm}') = {u} but osyris.units('{atom_unit[gi][0]}') = {atom_unit[gi][1]}",
+                                   "case": {"a": nm, "b": atom_unit[gi][0]}, "call_site": "Units.__call__", "input_class": "spelling"})
+    trees = [gen_tree(r, r.choice([1, 2, 2, 3])) for _ in range(ntree)]
+    # the hand-picked blank-as-product cases whose letters also spell another unit
+    for a, b in [("m", "s"), ("m", "m"), ("c", "m"), ("k", "g"), ("m", "K"), ("G", "s"), ("m", "N"), ("k", "m"), ("d", "a"), ("m", "min")]:
+        ga = next(i for i, n in enumerate(ATOMS) if n[0] == a)
+        gb = next(i for i, n in enumerate(ATOMS) if n[0] == b)
+        trees.append({"k": "mul", "a": {"k": "atom", "group": ga}, "b": {"k": "atom", "group": gb}, "short": True})
+
+    def with_units(t):
+        if t["k"] == "atom":
+            return {"k": "atom", "u": ucat.unit_json(osy, atom_unit[t["group"]][1])}
+        d = {"k": t["k"], "a": with_units(t["a"])}
+        if "b" in t:
+            d["b"] = with_units(t["b"])
+        if "n" in t:
+            d["n"] = t["n"]
+        return d
+
+    jobs = []
+    for t in trees:
+        try:
+            jobs.append({"engine": "uexpr", "expr": with_units(t)})
+        except (KeyError, ucat.UnsupportedUnit):
+            jobs.append(None)
+    res = lean.run_driver([j for j in jobs if j is not None])
+    it = iter(res)
+    nsp = 0
+    for t, j in zip(trees, jobs):
+        if j is None:
+            continue
+        model = next(it).get("unit")
+        canon = render(r, t, "canon")
+        if t.get("short"):
+            a, b = ATOMS[t["a"]["group"]][0], ATOMS[t["b"]["group"]][0]
+            spellings = [f"{a} {b}", f"{a}*{b}", f"{b} {a}"]
+        else:
+            spellings = [render(r, t, "free") for _ in range(3)]
+        r.shuffle(spellings)
+        seen = []
+        for sp in [canon] + spellings:
+            out.evaluations += 1
+            nsp += 1
+            try:
+                u = osy.units(sp)
+                uj = ucat.unit_json(osy, u)
+            except ucat.UnsupportedUnit:
+                continue
+            except Exception as e:  # noqa: BLE001
+                u, uj = None, {"err": type(e).__name__}
+            seen.append((sp, u, uj))
+        out.compared += 1
+        out.nontrivial.add("spell:" + canon)
+        if not seen:
+            continue
+        sp0, u0, uj0 = seen[0]
+        bad = next(((sp, u, uj) for sp, u, uj in seen[1:] if (u is None) != (u0 is None) or (u is not None and u != u0)), None)
+        if bad is not None:
+            out.violations.append({"what": f"equivalent spellings are read as different units: osyris.units({sp0!r}) = {u0}, osyris.units({bad[0]!r}) = {bad[1]}"
+                                           " (all spellings parsed in this process, in this order: " + ", ".join(repr(x[0]) for x in seen) + ")",
+                                   "case": {"spellings": [x[0] for x in seen], "tree": t}, "call_site": "Units.__call__", "input_class": "spelling"})
+        elif model is not None and u0 is not None and (uj0["s"] != model["s"] or uj0["d"] != model["d"]):
+            out.disagreements.append(({"spelling": sp0, "tree": t}, f"osyris.units({sp0!r}) = {uj0['s']} but the tree denotes {model['s']}"))
+    out.extra["spellings_parsed"] = nsp
+    out.extra["expression_trees"] = len(trees)
+
+
 def run(ctx):
     n = 600 if ctx.tier == "quick" else 12000
     ge = G(ctx.rng, ctx.osyris, "exact")
@@ -156,6 +308,7 @@ def run(ctx):
                     cases.append({"prog": prog, "lane": "tol", "tags": ["pair", fam]})
     out = run_programs(ctx, cases, nontrivial, known_classifier=classify)
     check_constants(ctx, out)
+    check_spellings(ctx, out)
     dist = {}
     for c in cases:
         k = c["tags"][0] + ":" + c["lane"]
